@@ -21,14 +21,18 @@ def obligations(tier) -> core.Result:
         if src.has(q):
             res.functions.append(src.func(q))
     L = 3 if tier == "quick" else 4
-    kinds = [()]
+    chains = [()]
     for d in (1, 2, 3):
-        kinds += list(itertools.product("CD", repeat=d))
+        chains += list(itertools.product("CD", repeat=d))
+    # the statement at the end of a label chain (or a plain block item): an expression statement or the empty statement ';'
+    # (which is also what the parser puts under a label that is followed by a declaration)
+    kinds = [(c, st) for c in chains for st in ("id", "empty")]
     counter = [0]
 
-    def mk_item(chain, tag):
+    def mk_item(kind, tag):
+        chain, st = kind
         counter[0] += 1
-        node = A.ID(f"s{tag}")
+        node = A.ID(f"s{tag}") if st == "id" else A.EmptyStatement()
         for k in reversed(chain):
             node = A.Case(A.Constant("int", str(counter[0])), [node]) if k == "C" else A.Default([node])
         return node
@@ -74,8 +78,8 @@ def obligations(tier) -> core.Result:
 
     def render(combo):
         out = []
-        for i, c in enumerate(combo):
-            out.append("".join(("case %d: " % (j + 1)) if k == "C" else "default: " for j, k in enumerate(c)) + f"s{i};")
+        for i, (c, st) in enumerate(combo):
+            out.append("".join(("case %d: " % (j + 1)) if k == "C" else "default: " for j, k in enumerate(c)) + (f"s{i};" if st == "id" else ";"))
         return "switch (x) { " + " ".join(out) + " }"
 
     rep = None
